@@ -163,6 +163,14 @@ struct C10World: World {
         std::string o2; try { o2 = g2->obs(false); } catch (const std::exception&) { o2 = o; }
         if (stable(o2, fam_name) != stable(t.obs, fam_name)) ctx.fail(fpfx + "peer-image-read-differently-by-stream-reader", where);
       }
+      // restart after the upgrade with redelivery: for the distinct-counting families everything the writer had seen up to this checkpoint is offered again to
+      // the restored sketch; it holds all of it already, so nothing may change (an in-place table whose probe sequence this version no longer follows would
+      // not find what it holds)
+      if (fam_name == "hll" || fam_name == "cpc") {   // (a restored theta sketch is compact: continuing it goes through a union, which changes its form)
+        std::vector<const Step*> seen; size_t cp = 0;
+        for (const Step& st : p.steps) { if (st.kind == OP_CHECKPOINT) { if (cp == i) break; cp++; } else if (st.kind == OP_RESET) seen.clear(); else if (st.kind == OP_FEED) seen.push_back(&st); else { seen.clear(); break; } }   // merges bring other objects: only pure feed histories are redelivered
+        if (!seen.empty() && got->can_continue()) { try { for (const Step* st : seen) apply_history_step(family_at(p.cfg[0]), p.cfg.data() + 1, *got, *st); } catch (const std::exception&) { seen.clear(); }
+          if (!seen.empty()) { const std::string after = got->obs(false); if (stable(after, fam_name) != stable(o, fam_name)) ctx.fail(fpfx + "redelivery-after-restart-changes-restored-sketch", where + ": " + o.substr(0, 200) + " became " + after.substr(0, 200)); ctx.fault("dup"); ctx.probe("redelivery_after_version_change"); } } }
       ctx.check(); ctx.fault("version_skew"); ctx.nontrivial = true;
       // reported, not judged: a repair may legitimately change an image (REQ raw items, frequent items with no active items)
       if (i < mine.size()) { if (mine[i].img == t.img) ctx.probe("image_bytes_identical_across_versions"); else if (proto->canonical(t.variant, mine[i].img) == proto->canonical(t.variant, t.img)) ctx.probe("image_identical_up_to_table_order"); else ctx.probe("image_bytes_differ_across_versions");
@@ -310,6 +318,46 @@ struct C10HashWorld: World {
   }
 };
 static void register_extra() { static C10HashWorld h; registry().push_back(&h); }
+#elif defined(GROUP_QUANT)
+#include <tdigest.hpp>
+// t-digest images in the two formats of the reference implementation (MergingDigest.asBytes / asSmallBytes; big-endian), synthesised by an encoder
+// written from that layout: type 1: double min, double max, double compression, int32 count, then (double weight, double mean) per centroid;
+// type 2: double min, double max, float compression, int16 centroid capacity, int16 buffer capacity, int16 count, then (float weight, float mean)
+struct C10TdRefWorld: World {
+  const char* name() const override { return "c10tq"; }
+  const char* step_name(int k) const override { return k == 1 ? "reference_double_encoding" : "reference_small_encoding"; }
+  std::string family_of(const Plan&) const override { return "tdigest-reference-format"; }
+  Plan generate(u64 run_seed, int) override { Plan p; p.run_seed = run_seed; Rng r(run_seed, "plan"); static const i64 ks[] = { 10, 50, 100, 200 }; p.cfg = { r.pick(ks), r.range(1, 40), static_cast<i64>(r.below(100000)) };
+    for (int k = 1; k <= 2; k++) { Step s; s.kind = k; p.steps.push_back(s); } return p; }
+  template<typename V> static void put_be(Bytes& b, V v) { uint8_t raw[sizeof(V)]; std::memcpy(raw, &v, sizeof(V)); for (size_t i = 0; i < sizeof(V); i++) b.push_back(raw[sizeof(V) - 1 - i]); }
+  template<typename T> void check(Ctx& ctx, const Bytes& img, const char* which, u64 k, double mn, double mx, u64 total) {
+    typedef datasketches::tdigest<T, talloc<T>> S; const std::string fpfx = std::string("C10|tdigest<") + (sizeof(T) == 8 ? "double" : "float") + ">|" + which + "|";
+    auto judge = [&](const S& s, const char* reader) {
+      if (s.get_k() != k || s.get_total_weight() != total || static_cast<double>(s.get_min_value()) != static_cast<double>(static_cast<T>(mn)) || static_cast<double>(s.get_max_value()) != static_cast<double>(static_cast<T>(mx)))
+        ctx.fail(fpfx + reader + "-reads-reference-image-differently", "k " + std::to_string(s.get_k()) + "/" + std::to_string(k) + " weight " + std::to_string(s.get_total_weight()) + "/" + std::to_string(total) + " min " + hexd(s.get_min_value()) + "/" + hexd(mn) + " max " + hexd(s.get_max_value()) + "/" + hexd(mx));
+      ctx.check(); };
+    ExactBuf eb(img.data(), img.size()); S a = S::deserialize(eb.p, eb.n, talloc<T>(1)); judge(a, "bytes-reader");
+    SimFileBuf fb(img.data(), img.size(), 0, 5, static_cast<size_t>(-1), static_cast<size_t>(-1)); std::istream is(&fb); S b = S::deserialize(is, talloc<T>(1)); judge(b, "stream-reader");
+    ctx.require(fb.consumed() == img.size(), (fpfx + "stream-reader-consumed-wrong-length").c_str(), std::to_string(fb.consumed()) + " of " + std::to_string(img.size()));
+    for (double r : { 0.0, 0.1, 0.5, 0.9, 1.0 }) ctx.require(a.get_quantile(r) == b.get_quantile(r), (fpfx + "stream-and-bytes-readers-disagree").c_str(), "quantile " + hexd(r));
+    ctx.fault("version_skew"); ctx.nontrivial = true;
+  }
+  void execute(const Plan& p, Ctx& ctx) override {
+    alloc_state().reset_counters(); alloc_state().budget = static_cast<size_t>(1) << 30;
+    const u64 k = static_cast<u64>(p.cfg[0]); const int nc = static_cast<int>(p.cfg[1]); Rng r(p.run_seed, "centroids");
+    std::vector<double> means, weights; double cur = static_cast<double>(p.cfg[2] % 1000) + 0.5; u64 total = 0;   // exactly representable in float as well
+    for (int i = 0; i < nc; i++) { means.push_back(cur); const u64 w = (i == 0 || i == nc - 1) ? 1 : 1 + r.below(9); weights.push_back(static_cast<double>(w)); total += w; cur += 1.0 + static_cast<double>(r.below(64)) * 0.25; }
+    const double mn = means.front(), mx = means.back(); int idx = 0;
+    for (const Step& s : p.steps) {
+      ctx.begin_step(idx++, s.kind); Bytes img;
+      if (s.kind == 1) { put_be<uint32_t>(img, 1); put_be<double>(img, mn); put_be<double>(img, mx); put_be<double>(img, static_cast<double>(k)); put_be<uint32_t>(img, static_cast<uint32_t>(nc)); for (int i = 0; i < nc; i++) { put_be<double>(img, weights[static_cast<size_t>(i)]); put_be<double>(img, means[static_cast<size_t>(i)]); } }
+      else { put_be<uint32_t>(img, 2); put_be<double>(img, mn); put_be<double>(img, mx); put_be<float>(img, static_cast<float>(k)); put_be<uint16_t>(img, static_cast<uint16_t>(2 * k + 30)); put_be<uint16_t>(img, static_cast<uint16_t>(5 * k)); put_be<uint16_t>(img, static_cast<uint16_t>(nc)); for (int i = 0; i < nc; i++) { put_be<float>(img, static_cast<float>(weights[static_cast<size_t>(i)])); put_be<float>(img, static_cast<float>(means[static_cast<size_t>(i)])); } }
+      check<double>(ctx, img, s.kind == 1 ? "reference-double" : "reference-small", k, mn, mx, total); check<float>(ctx, img, s.kind == 1 ? "reference-double" : "reference-small", k, mn, mx, total);
+      ctx.t(static_cast<u64>(img.size())); ctx.t(total);
+    }
+  }
+};
+static void register_extra() { static C10TdRefWorld t; registry().push_back(&t); }
 #else
 static void register_extra() {}
 #endif
